@@ -707,7 +707,7 @@ def replay(path):
         print('replay file has no case (kind=%s): %s' % (obj.get('kind'), obj.get('what', '')))
         sys.exit(1)
     build_harness(['owrun'])
-    build_driver()
+    build_driver(['c16'])
     sh(['go', 'build', '-tags', 'verif', '-o', OWRUN, './cmd/owrun'], cwd=HARNESS, env=GOENV, timeout=1800)
     li = run_filtered(OWRUN, [line], 'CRASH', env=GOENV)[0]
     lm = run_filtered(os.path.join(OCAML, 'driver'), [line], 'MODELCRASH')[0]
@@ -760,7 +760,7 @@ def main():
         c.finish()
     # 2. theorems
     c.prove()
-    build_driver()
+    build_driver(['c16'])
 
     # 3. cases
     per_model = 120 if quick else 3000
